@@ -130,6 +130,13 @@ func VerifH05a() {
 	if transportDown {
 		conn.failWriteAt = 0
 	}
+	// ... or refuses exactly one write (the first) and accepts the ones after
+	// it: what was refused was not delivered, and is not delivered later either
+	transient := !transportDown && nondetBool()
+	if transient {
+		conn.failWriteOnly = 1
+		transportDown = true // (for the operation itself the transport is down)
+	}
 	w := buffer.NewWriter(slog.Default(), conn)
 	rd := buffer.NewReader(slog.Default(), conn, 64)
 	preClosed := nondetBool()
@@ -176,6 +183,10 @@ func VerifH05a() {
 	case 3: // Complete
 		tag := vSymText(2)
 		if nondetBool() {
+			// a command tag as handlers really write them, with or without a count
+			tag = [][]byte{[]byte("SELECT"), []byte("SELECT 2"), []byte("FETCH"), []byte("INSERT 0 1"), []byte("UPDATE"), []byte("COPY 3"), []byte("OK")}[vChoose(7)]
+			vReach("real-command-tag")
+		} else if nondetBool() {
 			// a long command tag: lengths around 64, 128, 256 and 4096
 			n := vLongLens[vChoose(len(vLongLens))]
 			tag = make([]byte, n)
@@ -241,7 +252,10 @@ func VerifH05a() {
 	}
 	// whatever the operation was and however it ended, it leaves nothing behind
 	// in the connection's frame: the message written next arrives as it was built
-	if !transportDown {
+	if transient && conn.failedWrites == 1 {
+		vReach("one-write-refused-then-accepted-again")
+	}
+	if !transportDown || (transient && conn.failedWrites == 1) {
 		mark := len(conn.out)
 		w.Start(types.ServerReady)
 		w.AddByte('I')
